@@ -9,14 +9,21 @@ open Oc.Pool Oc.Queue
 from the queue it is skipped — nothing is started — and an error result is stored (which removes the
 waiter registration). -/
 theorem C13_before_start (f : Nat) (p : Pool) (w : Nat) (x : Worker) (pr : Int) (t : Nat) (q' : PQ)
-    (hx : p.workers[w]? = some x) (hal : x.alive = true) (hidle : x.task = none)
+    (hx : p.workers[w]? = some x) (hal : x.alive = true) (hpl : x.plain = false) (hidle : x.task = none)
     (hpop : p.tasks.popMin = some (pr, t, q')) (hc : t ∈ p.cancelTasks) :
     resumeWorker (f + 1) p w =
-      resumeWorker f (setResult { p with tasks := q', cancelTasks := p.cancelTasks.filter (· != t) } t (.err "The task was cancelled")) w ∧
-    (setResult { p with tasks := q', cancelTasks := p.cancelTasks.filter (· != t) } t (.err "The task was cancelled")).started = p.started ∧
-    t ∉ (setResult { p with tasks := q', cancelTasks := p.cancelTasks.filter (· != t) } t (.err "The task was cancelled")).waits := by
-  refine ⟨by simp [resumeWorker, hx, hal, hidle, hpop, hc], rfl, ?_⟩
-  simp [setResult]
+      resumeWorker f (finish { p with tasks := q', cancelTasks := p.cancelTasks.filter (· != t) } t (.err "The task was cancelled")) w ∧
+    (finish { p with tasks := q', cancelTasks := p.cancelTasks.filter (· != t) } t (.err "The task was cancelled")).started = p.started ∧
+    (t ∉ (finish { p with tasks := q', cancelTasks := p.cancelTasks.filter (· != t) } t (.err "The task was cancelled")).waits ∨
+      t ∈ p.noWaits) := by
+  refine ⟨by simp [resumeWorker, hx, hal, hpl, hidle, hpop, hc], ?_, ?_⟩
+  · unfold finish; split <;> rfl
+  · unfold finish
+    by_cases hn : p.noWaits.contains t = true
+    · right; simpa using hn
+    · left
+      simp only [hn, Bool.false_eq_true, if_false]
+      simp [setResult]
 
 /-- Requesting the cancel touches nothing but the cancel sets: queue, workers, results, waiters and
 the set of started tasks are unchanged — no other task is cancelled, skipped or interrupted by it. -/
